@@ -5,6 +5,7 @@ import (
 	"context"
 	"encoding/binary"
 	"encoding/hex"
+	"errors"
 	"fmt"
 	"io"
 	"math/big"
@@ -25,6 +26,12 @@ type sentFrame struct {
 	f     refcodec.Frame
 	enc   bool
 	hasIV bool
+	// for a protected frame the reference decryptor opened: the full 16-byte nonce it opened under
+	// (base IV of the direction with the leading word advanced), the key, and the op that emitted it
+	opened bool
+	nonce  [16]byte
+	keyID  int
+	opIdx  int
 }
 
 type sep struct {
@@ -43,6 +50,50 @@ type sep struct {
 	anyRecv   bool
 	dir       *refcodec.Dir // opens the frames this endpoint sends
 	sent      []sentFrame
+	// what the harness itself knows about unfinished messages on this endpoint (C15 oracle): inside
+	// StartMessageRead..EndMessageRead; bytes handed to WriteMessage and not yet put on the wire
+	inRead      bool
+	bufferedOut int
+}
+
+// fakeAddr is the remote address of a harness connection.
+type fakeAddr struct{ network, addr string }
+
+func (a fakeAddr) Network() string { return a.network }
+func (a fakeAddr) String() string  { return a.addr }
+
+// newWorldAddr: as newWorld, but the two connections have remote addresses (as real TCP
+// connections do), which NewStream records as the peer address in sinful form.
+func newWorldAddr() *sworld {
+	w := &sworld{pending: map[string][]byte{}}
+	mk := func(name, remote string) *sep {
+		c := bufconn.New()
+		c.Remote = fakeAddr{"tcp", remote}
+		return &sep{name: name, c: c, s: stream.NewStream(c), keyLine: -1}
+	}
+	w.a, w.b = mk("A", "192.0.2.7:9618"), mk("B", "198.51.100.23:41714")
+	w.log("new", "ok")
+	w.log("connaddr A "+hexOrDash([]byte("<192.0.2.7:9618>")), "ok")
+	w.log("connaddr B "+hexOrDash([]byte("<198.51.100.23:41714>")), "ok")
+	return w
+}
+
+func (w *sworld) setauth(n string, on bool) {
+	w.ep(n).s.SetAuthenticated(on)
+	w.log("setauth "+n+" "+b01(on), "ok")
+}
+
+func (w *sworld) setpeer(n string, addr string) {
+	w.ep(n).s.SetPeerAddr(addr)
+	w.log("setpeer "+n+" "+hexOrDash([]byte(addr)), "ok")
+}
+
+// ident: what the stream reports about the session's identity
+func (w *sworld) ident(n string) (bool, string) {
+	e := w.ep(n)
+	a, p := e.s.IsAuthenticated(), e.s.GetPeerAddr()
+	w.log("ident "+n, fmt.Sprintf("ok auth=%s peer=%s", b01(a), orc.ShowBytes([]byte(p))))
+	return a, p
 }
 
 type sworld struct {
@@ -51,6 +102,40 @@ type sworld struct {
 	ops     []string
 	real    []string
 	dead    bool // a terminal error happened on a receive; the case stops making claims
+	pat     *patState
+}
+
+// patState: the big position-dependent message currently being sent (compact `pat:` op payloads)
+type patState struct {
+	seed int
+	msg  []byte
+	off  int
+}
+
+// patByte mirrors Oracle.StreamEngine.patByte: byte i of test pattern `seed`.
+func patByte(seed, i int) byte {
+	return byte(((uint64(i) + uint64(seed)) * 2654435761 % 4294967296) / 16777216)
+}
+
+func patBytes(seed, off, n int) []byte {
+	b := make([]byte, n)
+	for j := range b {
+		b[j] = patByte(seed, off+j)
+	}
+	return b
+}
+
+// payload renders the bytes of a send/write op. While a pattern message is being sent, a chunk that
+// IS the next bytes of the pattern (checked byte for byte) is written as pat:<n>:<seed>:<off>.
+func (w *sworld) payload(data []byte) string {
+	if p := w.pat; p != nil && len(data) > 0 && p.off+len(data) <= len(p.msg) && bytes.Equal(data, p.msg[p.off:p.off+len(data)]) {
+		off := p.off
+		p.off += len(data)
+		if len(data) > 64 {
+			return fmt.Sprintf("pat:%d:%d:%d", len(data), p.seed, off)
+		}
+	}
+	return orc.Payload(data)
 }
 
 var bg = context.Background()
@@ -103,39 +188,49 @@ func ivStr(iv [16]byte) string {
 type drawnIV struct {
 	iv    [16]byte
 	where string
+	ops   []string // the session up to (not including) the send that carried the IV
 }
 
 var drawnIVs []drawnIV
 
 // describe renders a frame the endpoint just emitted; protected frames are opened by refcodec.
 func (w *sworld) describe(e *sep, f refcodec.Frame, enc bool) string {
+	d, _ := w.describeP(e, f, enc)
+	return d
+}
+
+// describeP: the rendering and the frame's plaintext (nil when the frame could not be opened)
+func (w *sworld) describeP(e *sep, f refcodec.Frame, enc bool) (string, []byte) {
 	if !enc {
 		e.sent = append(e.sent, sentFrame{f: f})
-		return fmt.Sprintf("F(%d,%d,raw,%s)", f.Flag, f.Len, orc.ShowBytes(f.Body))
+		return fmt.Sprintf("F(%d,%d,raw,%s)", f.Flag, f.Len, orc.ShowBytes(f.Body)), f.Body
 	}
 	if e.dir == nil {
-		return fmt.Sprintf("F(%d,%d,NOKEY)", f.Flag, f.Len)
+		return fmt.Sprintf("F(%d,%d,NOKEY)", f.Flag, f.Len), nil
 	}
 	o, err := e.dir.Open(f)
 	if err != nil {
 		e.sent = append(e.sent, sentFrame{f: f, enc: true})
-		return fmt.Sprintf("F(%d,%d,UNOPENABLE:%v)", f.Flag, f.Len, err)
+		return fmt.Sprintf("F(%d,%d,UNOPENABLE:%v)", f.Flag, f.Len, err), nil
 	}
-	e.sent = append(e.sent, sentFrame{f: f, enc: true, hasIV: o.HadIV})
+	var nn [16]byte
+	copy(nn[:], e.dir.BaseIV[:])
+	binary.BigEndian.PutUint32(nn[:4], o.NonceW0)
+	e.sent = append(e.sent, sentFrame{f: f, enc: true, hasIV: o.HadIV, opened: true, nonce: nn, keyID: e.keyID, opIdx: len(w.ops)})
 	ivs := "iv=-"
 	if o.HadIV {
 		e.iv = e.dir.BaseIV
 		e.ivKnown = true
 		ivs = "iv=" + ivStr(e.iv)
 		if e.keyLine >= 0 { // the IV a SetSymmetricKey call drew (not one restored from a blob)
-			drawnIVs = append(drawnIVs, drawnIV{iv: e.iv, where: fmt.Sprintf("IV draw #%d of the run: endpoint %s, key installed at op %d", len(drawnIVs)+1, e.name, e.keyLine)})
+			drawnIVs = append(drawnIVs, drawnIV{iv: e.iv, where: fmt.Sprintf("IV draw #%d of the run: endpoint %s, key installed at op %d", len(drawnIVs)+1, e.name, e.keyLine), ops: append([]string{}, w.ops...)})
 		}
 	}
 	aad := "aad=H"
 	if o.FirstAAD {
 		aad = fmt.Sprintf("aad=D[%s|%s]", showDig(e.clearSent, e.anySent), showDig(e.clearRecv, e.anyRecv))
 	}
-	return fmt.Sprintf("F(%d,%d,ct,%s,n=%d,%s,k=%d,%s)", f.Flag, f.Len, ivs, o.NonceW0, aad, e.keyID, orc.ShowBytes(o.Plain))
+	return fmt.Sprintf("F(%d,%d,ct,%s,n=%d,%s,k=%d,%s)", f.Flag, f.Len, ivs, o.NonceW0, aad, e.keyID, orc.ShowBytes(o.Plain)), o.Plain
 }
 
 // collect parses what the endpoint wrote, renders it and puts it in flight to the peer.
@@ -203,7 +298,7 @@ func (w *sworld) send(n string, flag int, data []byte) error {
 	} else {
 		err = e.s.SendPartialMessage(bg, data)
 	}
-	op := fmt.Sprintf("send %s %d %s", n, flag, orc.Payload(data))
+	op := fmt.Sprintf("send %s %d %s", n, flag, w.payload(data))
 	if err != nil {
 		e.c.TakeOut()
 		w.log(op, "err "+errClass(err))
@@ -217,11 +312,16 @@ func (w *sworld) write(n string, data []byte) error {
 	e := w.ep(n)
 	enc, fin := e.crypting(), e.finalized
 	err := e.s.WriteMessage(bg, data)
-	op := fmt.Sprintf("write %s %s", n, orc.Payload(data))
+	op := fmt.Sprintf("write %s %s", n, w.payload(data))
 	if err != nil {
 		e.c.TakeOut()
 		w.log(op, "err "+errClass(err))
 		return err
+	}
+	if len(e.c.Out) > 0 {
+		e.bufferedOut = 0 // the writer flushed: everything handed over so far is on the wire
+	} else {
+		e.bufferedOut += len(data)
 	}
 	w.log(op, strings.TrimRight("ok "+w.collect(e, enc, fin), " "))
 	return nil
@@ -236,12 +336,14 @@ func (w *sworld) end(n string) error {
 		w.log("end "+n, "err "+errClass(err))
 		return err
 	}
+	e.bufferedOut = 0
 	w.log("end "+n, strings.TrimRight("ok "+w.collect(e, enc, fin), " "))
 	return nil
 }
 
 func (w *sworld) start(n string) {
 	w.ep(n).s.StartMessage()
+	w.ep(n).bufferedOut = 0
 	w.log("start "+n, "ok")
 }
 
@@ -257,6 +359,61 @@ func (w *sworld) secret(n string, data []byte) error {
 	}
 	w.log(op, strings.TrimRight("ok "+w.collect(e, enc, fin), " "))
 	return nil
+}
+
+// typedFrame sends one frame through the typed layer: Message.PutBytes + FlushFrame(false) (->
+// WriteFrame -> SendPartialMessage) or FinishMessage (-> SendMessage). To the stream model that is one
+// `send` with the end flag the typed layer chose.
+func (w *sworld) typedFrame(n string, data []byte, eom bool) error {
+	e := w.ep(n)
+	enc, fin := e.crypting(), e.finalized
+	m := message.NewMessageForStream(e.s)
+	err := m.PutBytes(bg, data)
+	if err == nil {
+		if eom {
+			err = m.FinishMessage(bg)
+		} else {
+			err = m.FlushFrame(bg, false)
+		}
+	}
+	op := fmt.Sprintf("send %s %s %s", n, b01(eom), orc.Payload(data))
+	if err != nil {
+		e.c.TakeOut()
+		w.log(op, "err "+errClass(err))
+		return err
+	}
+	w.log(op, strings.TrimRight("ok "+w.collect(e, enc, fin), " "))
+	return nil
+}
+
+// typedBytes sends `data` as ONE message through the typed layer (Message.PutBytes + FinishMessage),
+// which splits it into frames itself. To the stream model every frame the typed layer put on the wire
+// is one `send` of that frame's plaintext with that frame's end flag (the typed layer is a client of
+// WriteFrame); whether the pieces add up to `data` is for the property oracle on the receiving side.
+func (w *sworld) typedBytes(n string, data []byte) error {
+	e := w.ep(n)
+	enc, fin := e.crypting(), e.finalized
+	m := message.NewMessageForStream(e.s)
+	err := m.PutBytes(bg, data)
+	if err == nil {
+		err = m.FinishMessage(bg)
+	}
+	out := e.c.TakeOut()
+	frames, rest := refcodec.ParseFrames(out)
+	for _, f := range frames {
+		d, plain := w.describeP(e, f, enc)
+		w.log(fmt.Sprintf("send %s %d %s", n, f.Flag, w.payload(plain)), "ok "+d)
+	}
+	if len(rest) != 0 {
+		w.log("send "+n+" 1 -", fmt.Sprintf("ok TRAILING(%d)", len(rest)))
+	}
+	if !fin && len(out) > 0 {
+		e.clearSent = append(e.clearSent, out...)
+		e.anySent = true
+	}
+	pn := w.peer(n).name
+	w.pending[pn] = append(w.pending[pn], out...)
+	return err
 }
 
 func (w *sworld) crypto(n string, on bool) {
@@ -288,6 +445,13 @@ func (w *sworld) deliver(n string) {
 }
 
 // around wraps a receive operation: tracks the cleartext consumed before digests freeze.
+// NOTE (known fragility, not fixable from outside the library): the cleartext the stream fed to its
+// receive digest is inferred from how many raw bytes left the connection buffer. That is exact as long
+// as Stream reads precisely header+payload per frame (io.ReadFull on the conn, as today). If Stream
+// ever gains read-ahead buffering (bufio), `consumed` would include bytes of frames not yet processed
+// and the reference digests (refcodec.Digest(e.clearRecv…)) would diverge from the stream's: every
+// first protected frame would then be reported UNOPENABLE although the library is right. The remedy
+// then is to feed exactly one frame per receive call (deliver frame by frame) instead of the backlog.
 func (w *sworld) around(n string, f func(e *sep) (string, error)) error {
 	w.deliver(n)
 	e := w.ep(n)
@@ -388,6 +552,7 @@ func (w *sworld) startread(n string) error {
 		if err != nil {
 			w.log("startread "+n, "err "+errClass(err))
 		} else {
+			e.inRead = true
 			w.log("startread "+n, "ok")
 		}
 		return "", err
@@ -401,8 +566,13 @@ func (w *sworld) read(n string, k int) ([]byte, error) {
 	d := buf[:got]
 	op := fmt.Sprintf("read %s %d", n, k)
 	if err != nil {
-		w.log(op, "err "+errClass(err))
-		if err != io.EOF { // bare io.EOF = end of the current message, not a broken stream
+		// ReadMessageBytes never touches the connection: an error that IS io.EOF (bare today; wrapped
+		// with %w would be the same thing to every caller using errors.Is) means "end of the current
+		// message", not a broken stream
+		if isEOM(err) {
+			w.log(op, "err eom")
+		} else {
+			w.log(op, "err "+errClass(err))
 			w.dead = true
 		}
 	} else {
@@ -411,12 +581,25 @@ func (w *sworld) read(n string, k int) ([]byte, error) {
 	return d, err
 }
 
+// isEOM: the error ReadMessageBytes uses for "no more bytes in this message"
+func isEOM(err error) bool { return errors.Is(err, io.EOF) }
+
+// errKind is errClass without any error TEXT (unknown wording -> "other"): for violation keys.
+func errKind(err error) string {
+	c := errClass(err)
+	if strings.HasPrefix(c, "other:") {
+		return "other"
+	}
+	return c
+}
+
 func (w *sworld) endread(n string) error {
 	e := w.ep(n)
 	err := e.s.EndMessageRead()
 	if err != nil {
 		w.log("endread "+n, "err "+errClass(err))
 	} else {
+		e.inRead = false
 		w.log("endread "+n, "ok")
 	}
 	return err
@@ -502,16 +685,26 @@ func (w *sworld) export(n string) ([]byte, error) {
 }
 
 // importBlob rebuilds the endpoint's stream from a blob around the same connection.
-func (w *sworld) importBlob(n string, blob []byte) error {
+func (w *sworld) importBlob(n string, blob []byte) error { return w.importBlobAround(n, blob, "") }
+
+// importBlobAround: the connection the session is continued on reports `remote` as its remote address
+// (a hand-off passes the fd to another process, typically over a unix socket; what the new process's
+// conn reports need not be the peer). remote == "": leave the connection as it is, model not told.
+func (w *sworld) importBlobAround(n string, blob []byte, remote string) error {
 	e := w.ep(n)
 	w.patchKey(e)
-	s, err := stream.NewStreamWithCryptoState(e.c, blob)
 	op := "import " + n + " " + hexOrDash(blob)
+	if remote != "" {
+		e.c.Remote = fakeAddr{"unix", remote}
+		op += " " + hexOrDash([]byte("<"+remote+">"))
+	}
+	s, err := stream.NewStreamWithCryptoState(e.c, blob)
 	if err != nil {
 		w.log(op, "err "+errClass(err))
 		return err
 	}
 	e.s = s
+	e.inRead, e.bufferedOut = false, 0
 	e.finalized = true // an imported stream never feeds digests that matter again (see model)
 	if f, perr := parseBlob(blob); perr == nil {
 		e.key = append([]byte{}, f.key...)
@@ -531,7 +724,6 @@ func (w *sworld) importBlob(n string, blob []byte) error {
 	w.log(op, "ok")
 	return nil
 }
-
 
 func hexOrDash(b []byte) string {
 	if len(b) == 0 {
